@@ -247,7 +247,11 @@ impl OverlayFs {
         ensures OverlayFs::lookup_frame(*old(vxh), *final(vxh)), r is Ok ==> dir_loaded(*final(vxh), node.nid()) { unimplemented!() }
     #[verifier::external_body] fn alloc_inode(&self, path: &String, Tracked(vxh): Tracked<&mut Heap>) -> (r: Result<u64>) ensures *final(vxh) == *old(vxh) { unimplemented!() }
     #[verifier::external_body] fn insert_inode(&self, inode: u64, node: Arc<OverlayInode>, Tracked(vxh): Tracked<&mut Heap>) ensures *final(vxh) == *old(vxh) { unimplemented!() }
-    #[verifier::external_body] fn remove_inode(&self, inode: u64, path_removed: Option<String>, Tracked(vxh): Tracked<&mut Heap>) -> (r: Option<Arc<OverlayInode>>) ensures *final(vxh) == *old(vxh) { unimplemented!() }
+    // every caller under contract here (do_rm, empty_node_directory) removes a NAME from the merged view: the number reserved for that path must be given up with it
+    // (the store drops the reservation when it is told the path: unit ovl_inodes, [C10.inodes.remove.reservation])
+    #[verifier::external_body] fn remove_inode(&self, inode: u64, path_removed: Option<String>, Tracked(vxh): Tracked<&mut Heap>) -> (r: Option<Arc<OverlayInode>>)
+        requires path_removed is Some, // [C10.ops.remove_inode.path_given]
+        ensures *final(vxh) == *old(vxh) { unimplemented!() }
 }
 '''
 
